@@ -174,8 +174,14 @@ def analyse(spec, r=None):
         expr = build(spec)
     except Exception:  # noqa: BLE001
         return None, ""
-    tags = {c[0] for c in walk(spec)}
-    hashable = not (tags & {"list", "array"})
+    tags = set()
+
+    def _occ(n):
+        tags.add(base_view(n)[0])
+        for c_ in expr_children(n):
+            _occ(c_)
+    _occ(spec)                  # tags of expression occurrences (payload tuples do not count)
+    hashable = not any(c[0] in ("list", "array") for c in walk(spec))
 
     # ---- dependencies -----------------------------------------------------------------------
     if not (tags & set(NO_HANDLER)):
@@ -196,6 +202,7 @@ def analyse(spec, r=None):
                     gots, bad = f"raised {type(e).__name__}: {e}", True
                 if r is not None:
                     r.evals += 1
+                    r.count("dependency_checks")
                 if bad:
                     flags = ",".join(f"{k[8:] if k.startswith('include_') else k}={v}"
                                      for k, v in fl.items())
@@ -249,12 +256,12 @@ def analyse(spec, r=None):
             got = f"raised {type(e).__name__}: {e}"
         if r is not None:
             r.evals += 1
+            r.count("node_count_checks")
         if got != want:
             return "node-count", f"expected {want} distinct subexpressions, got {got}"
 
     # ---- flops ------------------------------------------------------------------------------------
-    if hashable and tags <= set(FLOP_TAGS) | {"Variable", "int", "float", "bool", "str", "none",
-                                               "map", "tuple"}:
+    if hashable and tags <= set(FLOP_TAGS) | {"Variable", "int", "float", "bool", "complex"}:
         from pymbolic.mapper.flop_counter import CSEAwareFlopCounter, FlopCounter
         for name, cls, aware in (("FlopCounter", FlopCounter, False),
                                  ("CSEAwareFlopCounter", CSEAwareFlopCounter, True)):
@@ -267,6 +274,7 @@ def analyse(spec, r=None):
                 got = f"raised {type(e).__name__}: {e}"
             if r is not None:
                 r.evals += 1
+                r.count("flop_checks")
             if got != want:
                 return f"flops:{name}", f"expected {want} flops, got {got}"
     return None, ""
@@ -280,7 +288,10 @@ class C09(Check):
             "over {call, call-with-kwargs, subscript (scalar/tuple), lookup, CSE (with/without "
             "prefix), sum, power, conditional, slice, tuple}; plus sharing families (the same CSE "
             "twice, equal-but-not-identical subtrees); each x all 72 flag vectors x cached/uncached "
-            "dependency mapper, the node counter and both flop counters. Non-trivial = the tree "
+            "dependency mapper, the node counter and both flop counters; plus all length-3 "
+            "histories of 8 expressions on ONE analysis instance (plain and cached dependency "
+            "mapper under 4 flag settings, flop counter), each result compared with a fresh "
+            "analysis. Non-trivial = the tree "
             "contains a subscript, lookup, call or CSE, or a repeated subtree; distinct = distinct "
             "trees.")
     assumptions = [
@@ -292,12 +303,13 @@ class C09(Check):
     chunk = 20
 
     def families(self, tier):
-        leaves = [V("x"), V("y"), C(2)] if tier == "quick" else [V("x"), V("y"), C(2), C(1.0),
-                                                                   C(True)]
+        leaves = [V("x"), V("y"), C(2), C(0)] if tier == "quick" else [
+            V("x"), V("y"), C(2), C(0), C(1.0), C(True), C(0.0)]
         fams = [
             ("depth2", lambda: (("t", s) for s in gen.depth2(gen.ALL_CTORS, leaves))),
             ("nest2", lambda: (("t", s) for _, s in gen.nest2(gen.ALL_CTORS, gen.ALL_CTORS))),
             ("sharing", self.gen_sharing),
+            ("instance-histories", self.gen_histories),
             ("nest3", lambda: (("t", s) for _, s in gen.nest3(N3, N3, N3))),
         ]
         return fams
@@ -317,8 +329,67 @@ class C09(Check):
             yield ("t", Call(V("g"), a, b))
             yield ("t", CSE(Sum(a, Quot(b, a))))
 
+    # -- one analysis instance applied to several expressions in turn -----------------------------
+    def hist_pool(self):
+        from vf.spec import CSE, Call, Prod, Sub, Sum
+        x, y, z = V("x"), V("y"), V("z")
+        cse = CSE(Sum(x, Prod(y, C(2))))
+        return [Sum(x, y), Prod(x, z), x, Sum(cse, y), Prod(cse, z), Call(V("f"), Sum(x, y)),
+                Sub(V("arr"), Sum(x, C(1))), CSE(Sum(x, y), "p")]
+
+    def gen_histories(self):
+        n = len(self.hist_pool())
+        for fi in range(4):
+            for hist in itertools.product(range(n), repeat=3):
+                yield ("hist", fi, hist)
+
+    HIST_FLAGS = [dict(), dict(composite_leaves=False), dict(include_cses=True),
+                  dict(include_calls="descend_args", include_subscripts=False)]
+
+    def check_history(self, r, fi, hist):
+        from pymbolic.mapper.dependency import CachedDependencyMapper, DependencyMapper
+        from pymbolic.mapper.flop_counter import CSEAwareFlopCounter, FlopCounter
+        pool = self.hist_pool()
+        fl = self.HIST_FLAGS[fi]
+        full = dict(include_subscripts=True, include_lookups=True, include_calls=True,
+                    include_cses=False, composite_leaves=None)
+        full.update(fl)
+        for cls in (DependencyMapper, CachedDependencyMapper):
+            m = cls(**fl)
+            for step, i in enumerate(hist):
+                got = m(build(pool[i]))
+                r.evals += 1
+                want = {sort_maps(w) for w in ref_dependencies(pool[i], full)}
+                if {sort_maps(to_spec(g)) for g in got} != want:
+                    return (f"history:{cls.__name__}", step,
+                            f"flags {fl}: call {step} on {show(pool[i])} after "
+                            f"{[show(pool[j]) for j in hist[:step]]} returned "
+                            f"{sorted(show(to_spec(g)) for g in got)}, a fresh analysis gives "
+                            f"{sorted(show(w) for w in want)}")
+        if fi == 0:
+            m = FlopCounter()
+            for step, i in enumerate(hist):
+                got = m(build(pool[i]))
+                r.evals += 1
+                if got != ref_flops(pool[i], False):
+                    return ("history:FlopCounter", step,
+                            f"call {step} on {show(pool[i])}: {got} flops, expected "
+                            f"{ref_flops(pool[i], False)}")
+        return None
+
     def check_item(self, family, item, tier):
         r = Res()
+        if item[0] == "hist":
+            hist = tuple(item[2])
+            f = self.check_history(r, item[1], hist)
+            r.keys.append(item)
+            r.count("histories")
+            if f:
+                pool = self.hist_pool()
+                h = hist[:f[1] + 1]
+                r.fail(f[0], f"{f[0]}|flags{item[1]}|" + ";".join(show(pool[i]) for i in h),
+                       f[2], witness=("hist", item[1], h))
+            return r
         spec = item[1]
         k, detail = analyse(spec, r)
         tags = {c[0] for c in walk(spec)}
